@@ -123,18 +123,37 @@ def queue_pipeline_ops(run, g: nx.Graph, want=("canon", "serialize")):
 def oracle_form(info):
     orc = (info or {}).get("oracle") or []
     if orc and "order" in orc[-1]:
-        return R.canonical_form(orc[-1])
+        return orc[-1]
     return None
 
 
-def check_oracle_contract(run, base_form, logs, m, m2):
+def _logged_graph(log):
+    g = nx.Graph()
+    for i, name in enumerate(log["names"]):
+        g.add_node(i, colour=None if log.get("color") is None else log["color"][i])
+    g.add_edges_from(log["edges"])
+    return g
+
+
+def check_oracle_contract(run, base_log, logs, m, m2):
     """validation of the assumption about igraph/bliss (`CanonOracle.canonical`): colour-isomorphic inputs
-    must get identical canonical forms"""
-    if base_form is None or not logs or "order" not in logs[-1]:
+    must get identical canonical forms.  If the canonical forms of two descriptions of one molecule differ,
+    an independent matcher decides who is at fault: the coloured graphs handed to igraph are isomorphic
+    (then igraph broke its contract) or they are not (then the colouring depends on the description, which
+    is a violation by the library itself)."""
+    if base_log is None or not logs or "order" not in logs[-1]:
         return
     run.stats["oracle_pairs_checked"] += 1
-    if R.canonical_form(logs[-1]) != base_form:
+    if R.canonical_form(logs[-1]) == R.canonical_form(base_log):
+        return
+    g1, g2 = _logged_graph(base_log), _logged_graph(logs[-1])
+    same = nx.is_isomorphic(g1, g2, node_match=lambda a, b: a["colour"] == b["colour"])
+    if same:
         run.fail("bliss-contract-violated", "igraph returned different canonical forms for colour-isomorphic inputs",
+                 {"mol": mol_repr(m), "relabelled": mol_repr(m2)})
+    else:
+        run.fail("colouring-depends-on-description",
+                 "the class-coloured graphs handed to igraph for two descriptions of one molecule are not isomorphic",
                  {"mol": mol_repr(m), "relabelled": mol_repr(m2)})
 
 
